@@ -232,11 +232,14 @@ type Exec struct {
 	inputNames map[string]int
 	dom        map[string]*byteDom
 	multiVar   map[string]bool
+	pcVars     map[string]bool   // variables mentioned by some path-condition conjunct
 	known      map[string]uint64 // bytes whose domain has shrunk to a single value
 	DomHits    int
 	ModelHits  int
 	model      map[string]uint64 // an assignment known to satisfy the current pc (or nil)
 	curFn      string
+	pendingAll []*pendingIter
+	NoLazyRange bool
 	sub        *subCtx
 	sumBad     map[*ssa.Function]bool
 	NoSummaries bool
@@ -306,6 +309,15 @@ func (e *Exec) addPC(c *T) {
 		return
 	}
 	e.pc = append(e.pc, c)
+	if v := c.SingleVar(); v != nil {
+		e.pcVars[v.Name] = true
+	} else {
+		vs := map[string]*T{}
+		c.Vars(vs)
+		for n := range vs {
+			e.pcVars[n] = true
+		}
+	}
 	if e.model != nil {
 		if v, ok := c.Eval(e.model); !ok || v != 1 {
 			e.model = nil
@@ -765,6 +777,7 @@ func (e *Exec) Choose(n int, what string) int {
 // Assume restricts the path.
 func (e *Exec) Assume(c *T) {
 	e.subGuard("assume")
+	e.effectAll()
 	if c.IsTrue() {
 		return
 	}
@@ -784,7 +797,15 @@ func (e *Exec) Assume(c *T) {
 		}
 		return
 	}
-	if !e.feasible(c) {
+	// a disequality on a variable nothing else constrains is always satisfiable
+	fresh := false
+	if v := c.SingleVar(); v != nil && !e.pcVars[v.Name] && c.Op == "not" && c.Args[0].Op == "=" {
+		eq := c.Args[0]
+		if (eq.Args[0].Op == "var" && eq.Args[1].IsConst()) || (eq.Args[1].Op == "var" && eq.Args[0].IsConst()) {
+			fresh = true
+		}
+	}
+	if !fresh && !e.feasible(c) {
 		panic(pathEnd{Kind: "assume", Msg: "assumption infeasible"})
 	}
 	e.addPC(c)
@@ -793,6 +814,7 @@ func (e *Exec) Assume(c *T) {
 // NewInput creates a named symbolic input variable.
 func (e *Exec) NewInput(name string, s sym.Sort) *T {
 	e.subGuard("input")
+	e.effectAll()
 	n := e.inputNames[name]
 	e.inputNames[name] = n + 1
 	full := name
@@ -828,6 +850,7 @@ func (e *Exec) uniq(name string) string {
 
 // Fixed records an explicit (forked) choice as a pseudo input of the witness.
 func (e *Exec) Fixed(name string, v uint64) {
+	e.effectAll()
 	full := e.uniq(name)
 	e.fixed[full] = v
 	e.fixedOrder = append(e.fixedOrder, full)
@@ -960,6 +983,7 @@ func (e *Exec) fail(bad *T, msg string) (violated bool, unknown bool) {
 // Assert records an obligation: pc ⇒ c. A satisfiable negation is a candidate violation.
 func (e *Exec) Assert(c *T, msg string) {
 	e.subGuard("assert")
+	e.effectAll()
 	e.Obligations++
 	if c.IsTrue() {
 		e.Discharged++
@@ -1012,7 +1036,7 @@ type Opts struct {
 func RunPath(p *Program, solver *sym.Solver, fn *ssa.Function, prefix []int32, o Opts) (res *PathResult) {
 	e := &Exec{P: p, Solver: solver, prefix: prefix, globals: map[*ssa.Global]*Obj{}, cloneMemo: map[*Obj]*Obj{}, cloneMapMemo: map[*Map]*Map{},
 		MaxSteps: o.MaxSteps, MaxDepth: o.MaxDepth, MaxLoop: o.MaxLoop, MapOrderSymbolic: o.MapOrderSymbolic, inputNames: map[string]int{},
-		funcsSeen: map[string]bool{}, harness: fn.Name(), fixed: map[string]uint64{}, Known: o.Known, dom: map[string]*byteDom{}, multiVar: map[string]bool{}, known: map[string]uint64{}, sumBad: map[*ssa.Function]bool{}, writeLog: map[*Obj]bool{}, mapWrites: map[*Map]bool{}, Params: o.Params, Ext: map[string]interface{}{}}
+		funcsSeen: map[string]bool{}, harness: fn.Name(), fixed: map[string]uint64{}, Known: o.Known, dom: map[string]*byteDom{}, multiVar: map[string]bool{}, known: map[string]uint64{}, pcVars: map[string]bool{}, sumBad: map[*ssa.Function]bool{}, writeLog: map[*Obj]bool{}, mapWrites: map[*Map]bool{}, Params: o.Params, Ext: map[string]interface{}{}}
 	res = &PathResult{Prefix: prefix}
 	defer func() {
 		r := recover()
